@@ -103,27 +103,38 @@ SumAll(ns) == IF ns = <<>> THEN 0 ELSE ns[1] + SumAll(Tail(ns))
 (***************************************************************************)
 (* Deterministic encoder: non-oneof fields by ascending number, oneof      *)
 (* members by oneof declaration order, unknown bytes last.                 *)
-(***************************************************************************)
-RECURSIVE EncMsg(_, _, _)
-RECURSIVE EncField(_, _, _)
+(*                                                                         *)
+(* The encoder takes an options record o == [det, ord, fwd]:               *)
+(*   det  Deterministic flag; ord  the iteration order Go's map range      *)
+(*   happens to produce ("asc"/"desc" stand for two different orders);     *)
+(*   fwd  whether the flag is forwarded to nested marshals (TRUE in the    *)
+(*   required behaviour; FALSE is the non-vacuity variant for C05).        *)
+RECURSIVE EncMsgO(_, _, _, _)
+RECURSIVE EncFieldO(_, _, _, _)
 
-EncElem(S, kind, msg, x) == IF kind = "message" THEN LenPrefixed(EncMsg(S, msg, x)) ELSE EncScalar(kind, x)
+DetOpts == [det |-> TRUE, ord |-> "asc", fwd |-> TRUE]
+Nested(o) == IF o.fwd THEN o ELSE [o EXCEPT !.det = FALSE]
 
-EncMapEntry(S, fd, k, x) ==
+RevSeq(s) == [i \in 1..Len(s) |-> s[Len(s) + 1 - i]]
+IterKeys(kk, m, o) == IF o.det \/ o.ord = "asc" THEN SortedKeys(kk, m) ELSE RevSeq(SortedKeys(kk, m))
+
+EncElemO(S, kind, msg, x, o) == IF kind = "message" THEN LenPrefixed(EncMsgO(S, msg, x, Nested(o))) ELSE EncScalar(kind, x)
+
+EncMapEntryO(S, fd, k, x, o) ==
     RecBytes(fd.num, TagBytes(1, WireOf(fd.kk)) \o EncScalar(fd.kk, k)
-                     \o TagBytes(2, WireOf(fd.vk)) \o EncElem(S, fd.vk, fd.vmsg, x))
+                     \o TagBytes(2, WireOf(fd.vk)) \o EncElemO(S, fd.vk, fd.vmsg, x, o))
 
-EncField(S, fd, x) ==
+EncFieldO(S, fd, x, o) ==
     CASE fd.card \in {"one", "oneof"} ->
-            TagBytes(fd.num, WireOf(fd.kind)) \o EncElem(S, fd.kind, fd.msg, x)
+            TagBytes(fd.num, WireOf(fd.kind)) \o EncElemO(S, fd.kind, fd.msg, x, o)
       [] fd.card = "rep" ->
             IF fd.packed /\ fd.kind \in NumericKinds
             THEN IF x = <<>> THEN <<>>
                  ELSE RecBytes(fd.num, ConcatAll([i \in 1..Len(x) |-> EncScalar(fd.kind, x[i])]))
-            ELSE ConcatAll([i \in 1..Len(x) |-> TagBytes(fd.num, WireOf(fd.kind)) \o EncElem(S, fd.kind, fd.msg, x[i])])
+            ELSE ConcatAll([i \in 1..Len(x) |-> TagBytes(fd.num, WireOf(fd.kind)) \o EncElemO(S, fd.kind, fd.msg, x[i], o)])
       [] fd.card = "map" ->
-            LET ks == SortedKeys(fd.kk, x)
-            IN ConcatAll([i \in 1..Len(ks) |-> EncMapEntry(S, fd, ks[i], x[ks[i]])])
+            LET ks == IterKeys(fd.kk, x, o)
+            IN ConcatAll([i \in 1..Len(ks) |-> EncMapEntryO(S, fd, ks[i], x[ks[i]], o)])
 
 PlainFieldsAsc(S, T) ==
     SortSeq(SelectSeq(FieldsOf(S, T), LAMBDA fd : fd.oo = 0), LAMBDA a, b : a.num < b.num)
@@ -131,13 +142,18 @@ PlainFieldsAsc(S, T) ==
 \* the populated member of oneof `oo` as a sequence of 0 or 1 field defs
 OneofSet(S, T, v, oo) == SelectSeq(FieldsOf(S, T), LAMBDA fd : fd.oo = oo /\ HasF(v, fd))
 
-EncMsg(S, T, v) ==
+EncMsgO(S, T, v, o) ==
     LET plain == PlainFieldsAsc(S, T)
-        p1 == ConcatAll([i \in 1..Len(plain) |-> IF HasF(v, plain[i]) THEN EncField(S, plain[i], GetF(v, plain[i])) ELSE <<>>])
-        p2 == ConcatAll([o \in 1..S[T].oneofs |->
-                 LET mem == OneofSet(S, T, v, o)
-                 IN IF mem = <<>> THEN <<>> ELSE EncField(S, mem[1], GetF(v, mem[1]))])
+        p1 == ConcatAll([i \in 1..Len(plain) |-> IF HasF(v, plain[i]) THEN EncFieldO(S, plain[i], GetF(v, plain[i]), o) ELSE <<>>])
+        p2 == ConcatAll([oo \in 1..S[T].oneofs |->
+                 LET mem == OneofSet(S, T, v, oo)
+                 IN IF mem = <<>> THEN <<>> ELSE EncFieldO(S, mem[1], GetF(v, mem[1]), o)])
     IN p1 \o p2 \o v.u
+
+EncMsg(S, T, v) == EncMsgO(S, T, v, DetOpts)
+EncField(S, fd, x) == EncFieldO(S, fd, x, DetOpts)
+EncElem(S, kind, msg, x) == EncElemO(S, kind, msg, x, DetOpts)
+EncMapEntry(S, fd, k, x) == EncMapEntryO(S, fd, k, x, DetOpts)
 
 (***************************************************************************)
 (* Size, written independently of the encoder (shape of the size template):*)
